@@ -801,8 +801,12 @@ func (gs *GossipSubRouter) OnClosedOutboundStream(p peer.ID) {
 		gs.extensions.OnClosedOutboundStream(p)
 	}
 	delete(gs.peers, p)
-	for _, peers := range gs.mesh {
-		delete(peers, p)
+	for topic, peers := range gs.mesh {
+		if _, ok := peers[p]; ok {
+			delete(peers, p)
+			// the mesh link is gone: drop its connection manager protection as well
+			gs.tagTracer.untagMeshPeer(p, topic)
+		}
 	}
 	for _, peers := range gs.fanout {
 		delete(peers, p)
